@@ -373,7 +373,7 @@ func (p *parser) parseStringLiteral() ast.Expression {
 }
 
 func (p *parser) parseCommentLiteral() ast.Expression {
-	for p.curToken.Type != token.E_END {
+	for p.curToken.Type != token.E_END && p.curToken.Type != token.EOF {
 		p.nextToken()
 	}
 
